@@ -291,6 +291,17 @@ func (c C14) Run(t *tape.Tape, opt core.RunOpt) (res core.Result) {
 				}
 			}
 			retry = nil
+			if poisoned && t.Bool(1, 3) {
+				// make sure the refused document also carries an extension of a
+				// loaded type that is fine by itself (it is applied before the
+				// document fails)
+				for k := 0; k < 6; k++ {
+					if f := gen.Valid(); f.Mutates {
+						frags = append([]workload.Fragment{f}, frags...)
+						break
+					}
+				}
+			}
 			if poisoned && chainSent && root.GetType("Zc1") != nil && t.Bool(1, 3) {
 				// an extension that gives a type of the chain another defaulted
 				// field is applied, then the document fails in validation: the
